@@ -231,18 +231,67 @@ def join_states(sa, sb):
     return s
 
 
+def reanalyse_joint(ra, rb, st, depth=0):
+    """the forms of a path pair differ: re-analyse both entry points on the joint parameter box (it is smaller than
+    either path's box, e.g. a boundary value shared by two case splits) and compare again"""
+    boxes = []
+    for k, (pn, ty) in enumerate(ra.an.fn.params):
+        if ty.kind == "int":
+            b = st.bounds.get("p%d" % k)
+            if b is None:
+                return False
+            boxes.append(("i", b[0], b[1]))
+        else:
+            f = st.fb.get("f%d" % k)
+            if f is None:
+                return False
+            boxes.append(("f", f[0], f[1], f[2]))
+    # only worthwhile when the joint box is thin in some dimension
+    thin = any(b[0] == "i" and b[2] - b[1] <= 4 for b in boxes)
+    if not thin:
+        return False
+    try:
+        qa = ra.an.run(P.init_state(ra.an.fn, boxes))
+        qb = rb.an.run(P.init_state(rb.an.fn, boxes))
+    except (Broken, Infeasible):
+        return False
+    if qa.alarms or qb.alarms or not qa.paths or not qb.paths:
+        return False
+    for x in qa.paths:
+        for y in qb.paths:
+            s2 = join_states(x.state, y.state)
+            if s2 is None:
+                continue
+            if not same_value(s2, x.ret, y.ret):
+                return False
+    return True
+
+
 def check_equiv(V, ra, rb, clause, rnd=None, site=None, differ=None):
     """for all inputs: ra and rb return the same value. Path pairs with an empty joint region are skipped;
     a pair whose returned forms differ is confirmed by concrete evaluation of both wrappers."""
     rnd = rnd or random.Random(V.seed)
     npairs = 0
+    boxes_b = [pbox(pb.state) for pb in rb.paths]
     for pa in ra.paths:
-        for pb in rb.paths:
+        ba = pbox(pa.state)
+        for pb, bb in zip(rb.paths, boxes_b):
+            # cheap prefilter: parameter boxes must intersect
+            disjoint = False
+            for k, (lo, hi) in ba.items():
+                o = bb.get(k)
+                if o is not None and (o[0] > hi or o[1] < lo):
+                    disjoint = True
+                    break
+            if disjoint:
+                continue
             st = join_states(pa.state, pb.state)
             if st is None:
                 continue
             npairs += 1
             ok = same_value(st, pa.ret, pb.ret)
+            if not ok:
+                ok = reanalyse_joint(ra, rb, st)
             V.oblige(ok)
             V.cover["disagreements_checked"] = V.cover.get("disagreements_checked", 0) + (0 if ok else 1)
             if ok:
